@@ -42,8 +42,9 @@ def toSrcElifs : Elifs → Src.Branches
 /-- `CaseValue` under `SwitchScenario` is `CaseScenario` (the compiler rewrites it, the language lowering writes it) -/
 def toSrcCases (sw : String) : Cases → Src.Cases
   | .nil => .nil
-  | .cons isDef name ps body r =>
-    .cons isDef ⟨if sw == Gen.op_switch_scenario && name == Gen.op_case_value then Gen.op_case_scenario else name, convParams ps⟩
+  | .cons true _ _ body r => .cons true ⟨"", []⟩ (toSrcStmts body) (toSrcCases sw r)
+  | .cons false name ps body r =>
+    .cons false ⟨if sw == Gen.op_switch_scenario && name == Gen.op_case_value then Gen.op_case_scenario else name, convParams ps⟩
       (toSrcStmts body) (toSrcCases sw r)
 end
 
